@@ -31,6 +31,7 @@
 #include <vector>
 #include "vh.h"
 #include "ola/Logging.h"
+#include "ola/StringUtils.h"
 #define private public
 #include "ola/io/MemoryBlock.h"
 #include "ola/io/MemoryBlockPool.h"
@@ -194,6 +195,23 @@ static string membuf(const string &hexdata, const string &script) {
   return out;
 }
 
+// Dump() must print exactly ola::FormatData of the buffer's bytes and change nothing
+template <typename T>
+static string dump_of(T *buf) {
+  int cnt = 0;
+  const IOVec *iov = buf->AsIOVec(&cnt);
+  vector<uint8_t> all;
+  for (int k = 0; k < cnt; k++) {
+    const uint8_t *p = static_cast<const uint8_t*>(iov[k].iov_base);
+    all.insert(all.end(), p, p + iov[k].iov_len);
+  }
+  T::FreeIOVec(iov);
+  std::ostringstream got, want;
+  buf->Dump(&got);
+  ola::FormatData(&want, all.empty() ? NULL : &all[0], all.size());
+  return got.str() == want.str() ? vh::hex(all) : string("DUMP-MISMATCH");
+}
+
 // Size, Empty, concatenated iovec (property level) and segment / first-last layout (internal)
 template <typename T>
 static void observe(const T *buf, const string &name, std::ostringstream *spec,
@@ -301,10 +319,13 @@ static string handle(const string &payload) {
 
 static string handle_impl(const vector<string> &a, bool thr) {
   if (a.size() < (thr ? 3 : 4)) return "bad-payload";
-  const bool ext = !thr && a[0][0] == 'X';
-  const bool multi = thr || a[0][0] == 'C';   // "<Clabel> <bsA> <bsB> <qmask> <smask> ops": two pools
-  const size_t first = thr ? 3 : (ext || multi) ? 5 : 4;
-  if (a.size() < first || (ext && vh::num(a[2]) < 1)) return "bad-payload";
+  // "<Ylabel> <bsA> <bsB> <qmask> <smask> <max> ops": two pools AND a NonBlockingSender whose output
+  // buffer is queue 0 (on the pool qmask[0] names); the other buffers may be on the other pool
+  const bool ymode = !thr && a[0][0] == 'Y';
+  const bool ext = !thr && (a[0][0] == 'X' || ymode);
+  const bool multi = thr || ymode || a[0][0] == 'C';   // "<Clabel> <bsA> <bsB> <qmask> <smask> ops": two pools
+  const size_t first = thr ? 3 : ymode ? 6 : (ext || multi) ? 5 : 4;
+  if (a.size() < first || (ext && !ymode && vh::num(a[2]) < 1)) return "bad-payload";
   World w;
   if (thr) {
     w.q.push_back(new IOQueue()); w.qpool.push_back(0);
@@ -318,14 +339,22 @@ static string handle_impl(const vector<string> &a, bool thr) {
     w.pool2 = new MemoryBlockPool(vh::num(a[2]));
     for (size_t i = 0; i < a[3].size() && a[3] != "-"; i++) {
       w.qpool.push_back(a[3][i] - 'A');
-      w.q.push_back(new IOQueue(a[3][i] == 'A' ? w.pool : w.pool2));
+      if (ymode && i == 0) {
+        w.fd = open("/dev/null", O_WRONLY);
+        w.desc = new ScriptedDescriptor(w.fd);
+        w.ss = new MockSS();
+        w.sender = new ola::io::NonBlockingSender(w.desc, w.ss, a[3][0] == 'A' ? w.pool : w.pool2, vh::num(a[5]));
+        w.q.push_back(&w.sender->m_output_buffer);
+      } else {
+        w.q.push_back(new IOQueue(a[3][i] == 'A' ? w.pool : w.pool2));
+      }
     }
     for (size_t i = 0; i < a[4].size() && a[4] != "-"; i++) {
       w.spool.push_back(a[4][i] - 'A');
       w.s.push_back(new IOStack(a[4][i] == 'A' ? w.pool : w.pool2));
     }
   }
-  if (ext) {
+  if (ext && !ymode) {
     w.fd = open("/dev/null", O_WRONLY);
     w.desc = new ScriptedDescriptor(w.fd);
     w.ss = new MockSS();
@@ -371,7 +400,11 @@ static string handle_impl(const vector<string> &a, bool thr) {
     } else if (op == "sd") {
       delete w.s[x];
       w.s[x] = new IOStack(multi && w.spool[x] == 1 ? w.pool2 : w.pool);
-    } else if (op == "pg") { w.pool->Purge();
+    } else if (op == "pg") { w.pool->Purge(); if (w.pool2) w.pool2->Purge();
+    } else if (op == "pq") { w.q[x]->Purge();
+    } else if (op == "ps") { w.s[x]->Purge();
+    } else if (op == "qd") { ret = dump_of(w.q[x]);
+    } else if (op == "sD") { ret = dump_of(w.s[x]);
     } else if (op == "qi") { ret = be_read(w.q[x], n);
     } else if (op == "mb") { ret = membuf(f[1], f.size() > 2 ? f[2] : "");
     } else if (ext && op == "xs") { ret = w.sender->SendMessage(w.s[x]) ? "T" : "F";
@@ -397,6 +430,7 @@ static string handle_impl(const vector<string> &a, bool thr) {
     }
     if (multi) {
       res << ";o" << (k - first) << "=" << ret << spec.str() << "/held-nonempty" << (nonempty ? 1 : 0);
+      if (w.sender) res << "/assoc" << (w.sender->m_associated ? 1 : 0) << ",reg" << (w.ss->registered ? 1 : 0);
       res << ";a" << (k - first) << "=";
       for (int pk = 0; pk < 2; pk++) {
         MemoryBlockPool *pp = thr ? (pk ? w.s[0]->m_pool : w.q[0]->m_pool) : (pk ? w.pool2 : w.pool);
